@@ -3,52 +3,181 @@ import Chain33Model.Proofs.C32
 C32 — Push subscribers receive the sequence log in order without gaps.  Property theorems only.
 
 Two layers: `C32.step` mirrors the task loop of blockchain/push.go (inputs: consumed notifications with
-the subscriber's answer, wake-ups, re-registrations, node restarts — any fault history is a list of
-inputs); `C32.accept` is the specification written from the property text, as an acceptor over the
-visible events.  `run_refines_spec` says every fault history of the loop is accepted;
-`accepted_contiguous` says what acceptance means for the acknowledged ranges.
+the subscriber's answer, ranges without matching data, what happens between acknowledgement and record,
+wake-ups, re-registrations, node restarts — any fault history is a list of inputs); `C32.accept` is the
+specification written from the property text, as an acceptor over the visible events (strict: every
+acknowledgement is recorded at once; lenient: the record may be lost).  `run_refines_spec` /
+`run_refines_strict` say every fault history of the loop is accepted; `accepted_delivery` (all posts),
+`accepted_contiguous_partial` (acknowledged ranges), `accepted_three_strikes` and
+`persisted_only_after_ack` say what acceptance means; `delivered_full_false` refutes the statement over
+histories with lost records.
 -/
 namespace C32
 
-theorem acceptAll_append (c : Cfg) (s : Spec) (e1 e2 : List Ev) :
-    acceptAll c s (e1 ++ e2) = (acceptAll c s e1).bind (fun s' => acceptAll c s' e2) := by
+theorem acceptAll_append (c : Cfg) (k : Bool) (s : Spec) (e1 e2 : List Ev) :
+    acceptAll c k s (e1 ++ e2) = (acceptAll c k s e1).bind (fun s' => acceptAll c k s' e2) := by
   induction e1 generalizing s with
   | nil => simp [acceptAll]
   | cons e es ih =>
     simp only [List.cons_append, acceptAll]
-    cases accept c s e with
+    cases accept c k s e with
     | none => simp
     | some s' => simpa using ih s'
 
-/-- **Refinement.** For every fault history (any notifications, answers, size cuts, wake-ups,
+/-- **Refinement.** For every fault history (any notifications, answers, size cuts, ranges without
+matching data, lost records — store failure or crash between acknowledgement and record —, wake-ups,
 re-registrations and restarts, of any length) the events produced by the task loop are accepted by the
-specification, and the simulation relation is maintained. -/
-theorem run_refines_spec_from (c : Cfg) (hc : 1 ≤ c.maxSeq) (ins : List In) (t : Task) (s : Spec) (h : R t s) :
-    ∃ s', acceptAll c s (run c t ins).2 = some s' ∧ R (run c t ins).1 s' := by
+specification, and the simulation relation is maintained.  `k = true` (the strict specification: every
+acknowledgement is recorded at once) for histories without lost records. -/
+theorem run_refines_spec_from (c : Cfg) (hc : 1 ≤ c.maxSeq) (k : Bool) (ins : List In)
+    (hk : k = true → ∀ i ∈ ins, i.noLoss = true) (t : Task) (s : Spec) (h : R k t s) :
+    ∃ s', acceptAll c k s (run c t ins).2 = some s' ∧ R k (run c t ins).1 s' := by
   induction ins generalizing t s with
   | nil => exact ⟨s, rfl, h⟩
   | cons i is ih =>
-    obtain ⟨s1, h1, r1⟩ := sim_step c hc t s i h
-    obtain ⟨s2, h2, r2⟩ := ih (step c t i).1 s1 r1
+    obtain ⟨s1, h1, r1⟩ := sim_step c hc k t s i (fun hh => hk hh i (by simp)) h
+    obtain ⟨s2, h2, r2⟩ := ih (fun hh j hj => hk hh j (by simp [hj])) (step c t i).1 s1 r1
     refine ⟨s2, ?_, ?_⟩
     · simp only [run]
       rw [acceptAll_append, h1]
       simpa using h2
     · simpa [run] using r2
 
+/-- every fault history is accepted by the (lenient) specification. -/
 theorem run_refines_spec (c : Cfg) (hc : 1 ≤ c.maxSeq) (ins : List In) :
-    ∃ s', acceptAll c {} (run c {} ins).2 = some s' :=
-  let ⟨s', h, _⟩ := run_refines_spec_from c hc ins {} {} R_init
+    ∃ s', acceptAll c false {} (run c {} ins).2 = some s' :=
+  let ⟨s', h, _⟩ := run_refines_spec_from c hc false ins (by simp) {} {} (R_init false)
   ⟨s', h⟩
 
-/-- acknowledged ranges chained from a resume point `r` (`r < 1`: no resume point yet): the first range
-starts right after `r`, every range is non-empty and starts at a sequence ≥ 1, each next range starts
-right after the previous one ends — strictly increasing, no gaps, no repeats. -/
-def ChainFrom : Int → List (Int × Int) → Prop
-  | _, [] => True
-  | r, (a, b) :: rest => (r ≥ 1 → a = r + 1) ∧ 1 ≤ a ∧ a ≤ b ∧ ChainFrom b rest
+/-- every fault history without a lost record is accepted by the strict specification. -/
+theorem run_refines_strict (c : Cfg) (hc : 1 ≤ c.maxSeq) (ins : List In) (hn : ∀ i ∈ ins, i.noLoss = true) :
+    ∃ s', acceptAll c true {} (run c {} ins).2 = some s' :=
+  let ⟨s', h, _⟩ := run_refines_spec_from c hc true ins (fun _ => hn) {} {} (R_init true)
+  ⟨s', h⟩
 
-theorem chainFrom_weaken (r r' : Int) (l : List (Int × Int)) (hr : r < 1) (h : ChainFrom r' l) : ChainFrom r l := by
+/-! ### what the subscriber receives: ALL posts, acknowledged or not -/
+
+/-- `Delivered p q evs`: `p` is the recorded sequence, `q` the cursor of the running task.  EVERY post
+(acknowledged or refused) and every range passed over without matching data starts right after the cursor
+(`q < 1`: no cursor yet); a refused post leaves the cursor where it is — the retransmission starts at the
+same sequence —, an acknowledged post and a skipped range move it to their end; a task that starts
+(re-registration after deactivation, node restart) stands at the record again; the record moves only by
+`.persisted`. -/
+def Delivered : Int → Int → List Ev → Prop
+  | _, _, [] => True
+  | p, q, .post a b ok :: es => (q ≥ 1 → a = q + 1) ∧ 1 ≤ a ∧ a ≤ b ∧ Delivered p (if ok then b else q) es
+  | p, q, .skip a b :: es => (q ≥ 1 → a = q + 1) ∧ 1 ≤ a ∧ a ≤ b ∧ Delivered p b es
+  | _, q, .persisted v :: es => Delivered v q es
+  | p, _, .started :: es => Delivered p p es
+  | p, q, .deactivated :: es => Delivered p q es
+  | p, q, .stalled :: es => Delivered p q es
+
+/-- **Every post starts right after the cursor** — in every accepted trace (strict or not), for
+acknowledged and refused posts alike. -/
+theorem accepted_delivery (c : Cfg) (k : Bool) (evs : List Ev) (s s' : Spec) (h : acceptAll c k s evs = some s') :
+    Delivered s.p s.q evs := by
+  induction evs generalizing s with
+  | nil => trivial
+  | cons e es ih =>
+    simp only [acceptAll] at h
+    cases ha : accept c k s e with
+    | none => simp [ha] at h
+    | some s1 =>
+      simp only [ha] at h
+      have ih' := ih s1 h
+      cases e with
+      | post a b ok =>
+        simp only [accept] at ha
+        split at ha
+        · simp at ha
+        · split at ha
+          · simp at ha
+          · rename_i h2
+            split at ha
+            · simp at ha
+            · rename_i h3
+              simp only [Bool.not_eq_true', decide_eq_false_iff_not, Decidable.not_not] at h2
+              have hq : s.q ≥ 1 → a = s.q + 1 := fun hh => by
+                by_cases e : a = s.q + 1
+                · exact e
+                · exact absurd ⟨hh, e⟩ h3
+              cases ok with
+              | true =>
+                simp only [if_true, Option.some.injEq] at ha
+                subst ha
+                exact ⟨hq, h2.1, h2.2.1, by simpa using ih'⟩
+              | false =>
+                simp only [Bool.false_eq_true, if_false] at ha
+                refine ⟨hq, h2.1, h2.2.1, ?_⟩
+                split at ha <;> (simp only [Option.some.injEq] at ha; subst ha; simpa using ih')
+      | skip a b =>
+        simp only [accept] at ha
+        split at ha
+        · simp at ha
+        · split at ha
+          · simp at ha
+          · rename_i h2
+            split at ha
+            · simp at ha
+            · rename_i h3
+              simp only [Bool.not_eq_true', decide_eq_false_iff_not, Decidable.not_not] at h2
+              have hq : s.q ≥ 1 → a = s.q + 1 := fun hh => by
+                by_cases e : a = s.q + 1
+                · exact e
+                · exact absurd ⟨hh, e⟩ h3
+              simp only [Option.some.injEq] at ha
+              subst ha
+              exact ⟨hq, h2.1, h2.2.1, by simpa using ih'⟩
+      | persisted v =>
+        simp only [accept] at ha
+        simp only [Delivered]
+        split at ha
+        · simp at ha
+        split at ha
+        · split at ha
+          · rename_i hv
+            simp only [Option.some.injEq] at ha; subst ha; subst hv; simpa using ih'
+          · simp at ha
+        · split at ha
+          · simp only [Option.some.injEq] at ha; subst ha; simpa using ih'
+          · simp at ha
+      | deactivated =>
+        simp only [accept] at ha
+        simp only [Delivered]
+        split at ha
+        · simp only [Option.some.injEq] at ha; subst ha; simpa using ih'
+        · simp at ha
+      | started =>
+        simp only [accept] at ha
+        simp only [Delivered]
+        split at ha
+        · simp at ha
+        · simp only [Option.some.injEq] at ha; subst ha; simpa using ih'
+      | stalled =>
+        simp only [accept] at ha
+        simp only [Delivered]
+        split at ha
+        · simp at ha
+        · simp only [Option.some.injEq] at ha; subst ha; simpa using ih'
+
+/-- … for every fault history of the task loop, lost records included. -/
+theorem run_delivery (c : Cfg) (hc : 1 ≤ c.maxSeq) (ins : List In) : Delivered (-1) (-1) (run c {} ins).2 := by
+  obtain ⟨s', h⟩ := run_refines_spec c hc ins
+  exact accepted_delivery c false _ {} s' h
+
+/-! ### the acknowledged ranges -/
+
+/-- acknowledged ranges chained from a resume point `r` (`r < 1`: no resume point yet): every range is
+non-empty and starts at a sequence ≥ 1; `dense = true` (block / header / tx-result subscriptions): the
+first range starts right after `r` and each next one right after the previous one ends — strictly
+increasing, no gaps, no repeats; `dense = false` (contract filter: the task may pass over ranges without
+matching data, see `Delivered`): strictly after — strictly increasing, no repeats. -/
+def ChainFrom (dense : Bool) : Int → List (Int × Int) → Prop
+  | _, [] => True
+  | r, (a, b) :: rest => (r ≥ 1 → if dense then a = r + 1 else r < a) ∧ 1 ≤ a ∧ a ≤ b ∧ ChainFrom dense b rest
+
+theorem chainFrom_weaken (d : Bool) (r r' : Int) (l : List (Int × Int)) (hr : r < 1) (h : ChainFrom d r' l) :
+    ChainFrom d r l := by
   cases l with
   | nil => trivial
   | cons x xs =>
@@ -56,21 +185,34 @@ theorem chainFrom_weaken (r r' : Int) (l : List (Int × Int)) (hr : r < 1) (h : 
     simp only [ChainFrom] at h ⊢
     exact ⟨fun hh => by omega, h.2⟩
 
-/-- **What acceptance means.** In every accepted event trace the acknowledged payload ranges are
-chained from the current resume point. -/
-theorem accepted_contiguous (c : Cfg) (evs : List Ev) (s s' : Spec) (h : acceptAll c s evs = some s') :
-    ChainFrom (eff s) (acks evs) := by
+/-- the cursor of a running task is not behind the last delivered sequence (and equal to it as long as
+nothing was skipped). -/
+def CursorOk (dense : Bool) (s : Spec) : Prop :=
+  s.dead = false → eff s ≥ 1 → (eff s ≤ s.q ∧ (dense = true → s.q = eff s))
+
+/-- The full statement of the property over ALL fault histories of the model, lost records included:
+the acknowledged ranges are strictly increasing (an acknowledged sequence is never delivered again). -/
+def FullStatement : Prop :=
+  ∀ (c : Cfg), 1 ≤ c.maxSeq → ∀ ins : List In, ChainFrom false (-1) (acks (run c {} ins).2)
+
+/-- **What strict acceptance means.**  Hypothesis added to the full statement: the trace is accepted by
+the STRICT specification, i.e. every acknowledgement is followed at once by its record (no store failure
+and no crash between `PostData` and `setLastPushSeq`).  Then the acknowledged ranges are chained from the
+current resume point; without gaps if no range was passed over (`dense`). -/
+theorem accepted_contiguous_partial (c : Cfg) (dense : Bool) (evs : List Ev) (s s' : Spec)
+    (h : acceptAll c true s evs = some s') (hd : dense = true → noSkip evs = true) (hinv : CursorOk dense s) :
+    ChainFrom dense (eff s) (acks evs) := by
   induction evs generalizing s with
   | nil => simp [acks, ChainFrom]
   | cons e es ih =>
     simp only [acceptAll] at h
-    cases ha : accept c s e with
+    cases ha : accept c true s e with
     | none => simp [ha] at h
     | some s1 =>
       simp only [ha] at h
-      have ih' := ih s1 h
       cases e with
       | post a b ok =>
+        have hd' : dense = true → noSkip es = true := fun hh => by simpa [noSkip] using hd hh
         simp only [accept] at ha
         split at ha
         · simp at ha
@@ -81,90 +223,213 @@ theorem accepted_contiguous (c : Cfg) (evs : List Ev) (s s' : Spec) (h : acceptA
             split at ha
             · simp at ha
             · rename_i h3
-              simp only [Bool.or_eq_true, Option.isSome_iff_ne_none, ne_eq, not_or, Bool.not_eq_true,
-                Decidable.not_not] at h1
-              have hpn : s.pending = none := h1.1.2
+              simp only [Bool.true_and, Bool.or_eq_true, Option.isSome_iff_ne_none, ne_eq, not_or,
+                Bool.not_eq_true, Decidable.not_not] at h1
+              have hpn : s.pending = none := h1.2
+              have hdead : s.dead = false := h1.1.1
               have heff : eff s = s.p := by simp [eff, hpn]
               simp only [Bool.not_eq_true', decide_eq_false_iff_not, Decidable.not_not] at h2
+              have hq : s.q ≥ 1 → a = s.q + 1 := fun hh => by
+                by_cases e : a = s.q + 1
+                · exact e
+                · exact absurd ⟨hh, e⟩ h3
               cases ok with
               | true =>
                 simp only [if_true, Option.some.injEq] at ha
                 subst ha
+                have ih' := ih _ h hd' (by intro _ _; simp [eff])
                 simp only [acks, ChainFrom, heff]
-                refine ⟨fun hh => ?_, h2.1, h2.2.1, ?_⟩
-                · by_cases e : a = s.p + 1
-                  · exact e
-                  · exact absurd ⟨hh, e⟩ h3
-                · simpa [eff] using ih'
+                refine ⟨fun hh => ?_, h2.1, h2.2.1, by simpa [eff] using ih'⟩
+                have hi := hinv hdead (by rw [heff]; exact hh)
+                rw [heff] at hi
+                have hq1 := hq (by omega)
+                cases dense with
+                | true => have := hi.2 rfl; simp only [if_true]; omega
+                | false => simp only [Bool.false_eq_true, if_false]; omega
               | false =>
                 simp only [Bool.false_eq_true, if_false] at ha
-                have : eff s1 = eff s := by
+                have hs1 : eff s1 = eff s ∧ s1.q = s.q ∧ s1.dead = s.dead := by
                   split at ha <;> (simp only [Option.some.injEq] at ha; subst ha; simp [eff, hpn])
+                have ih' := ih _ h hd' (by
+                  intro x y; rw [hs1.1] at y ⊢; rw [hs1.2.1]; rw [hs1.2.2] at x; exact hinv x y)
                 simp only [acks]
-                rw [← this]; exact ih'
+                rw [← hs1.1]; exact ih'
+      | skip a b =>
+        have hdn : dense = false := by
+          cases dense with
+          | false => rfl
+          | true => simpa [noSkip] using hd rfl
+        subst hdn
+        simp only [accept] at ha
+        split at ha
+        · simp at ha
+        · rename_i h1
+          split at ha
+          · simp at ha
+          · rename_i h2
+            split at ha
+            · simp at ha
+            · rename_i h3
+              simp only [Bool.true_and, Bool.or_eq_true, Option.isSome_iff_ne_none, ne_eq, not_or,
+                Bool.not_eq_true, Decidable.not_not] at h1
+              have hpn : s.pending = none := h1.2
+              have hdead : s.dead = false := h1.1.1
+              simp only [Bool.not_eq_true', decide_eq_false_iff_not, Decidable.not_not] at h2
+              have hq : s.q ≥ 1 → a = s.q + 1 := fun hh => by
+                by_cases e : a = s.q + 1
+                · exact e
+                · exact absurd ⟨hh, e⟩ h3
+              simp only [Option.some.injEq] at ha
+              subst ha
+              have ih' := ih _ h (by simp) (by
+                intro _ y
+                have y' : eff s ≥ 1 := by simpa [eff, hpn] using y
+                have hi := hinv hdead y'
+                have := hq (by omega)
+                refine ⟨?_, by simp⟩
+                simp only [eff, hpn] at hi ⊢
+                omega)
+              simp only [acks]
+              simpa [eff, hpn] using ih'
       | persisted v =>
+        have hd' : dense = true → noSkip es = true := fun hh => by simpa [noSkip] using hd hh
         simp only [accept] at ha
         simp only [acks]
+        split at ha
+        · simp at ha
         split at ha
         · rename_i b hb
           split at ha
           · simp only [Option.some.injEq] at ha; subst ha
-            have : eff s = b := by simp [eff, hb]
-            rw [this]; simpa [eff] using ih'
+            have he : eff s = b := by simp [eff, hb]
+            have ih' := ih _ h hd' (by
+              intro x y
+              have := hinv x (by rw [he]; simpa [eff] using y)
+              rw [he] at this
+              simpa [eff] using this)
+            rw [he]; simpa [eff] using ih'
           · simp at ha
         · rename_i hb
           split at ha
           · rename_i hc
             simp only [Option.some.injEq] at ha; subst ha
             simp only [Bool.and_eq_true, Bool.not_eq_true', decide_eq_true_eq] at hc
+            have ih' := ih _ h hd' (by intro x _; simp [hc.1.1.1] at x)
             have h1 : eff s = s.p := by simp [eff, hb]
             rw [h1]
-            exact chainFrom_weaken _ _ _ hc.1.2 (by simpa [eff, hb] using ih')
+            exact chainFrom_weaken _ _ _ _ hc.1.2 (by simpa [eff, hb] using ih')
           · simp at ha
       | deactivated =>
+        have hd' : dense = true → noSkip es = true := fun hh => by simpa [noSkip] using hd hh
         simp only [accept] at ha
         simp only [acks]
         split at ha
-        · simp only [Option.some.injEq] at ha; subst ha; simpa [eff] using ih'
+        · rename_i hm
+          simp only [Bool.and_eq_true, Option.isNone_iff_eq_none] at hm
+          simp only [Option.some.injEq] at ha; subst ha
+          have ih' := ih _ h hd' (by intro x _; simp at x)
+          simpa [eff, hm.2] using ih'
         · simp at ha
       | started =>
+        have hd' : dense = true → noSkip es = true := fun hh => by simpa [noSkip] using hd hh
         simp only [accept] at ha
         simp only [acks]
         split at ha
         · simp at ha
-        · simp only [Option.some.injEq] at ha; subst ha; simpa [eff] using ih'
+        · rename_i h1
+          simp only [Bool.true_and, Bool.or_eq_true, Option.isSome_iff_ne_none, ne_eq, not_or,
+            Bool.not_eq_true, Decidable.not_not] at h1
+          simp only [Option.some.injEq] at ha; subst ha
+          have ih' := ih _ h hd' (by intro _ _; simp [eff])
+          simpa [eff, h1.2] using ih'
+      | stalled =>
+        have hd' : dense = true → noSkip es = true := fun hh => by simpa [noSkip] using hd hh
+        simp only [accept] at ha
+        simp only [acks]
+        split at ha
+        · simp at ha
+        · rename_i h1
+          simp only [Bool.true_and, Bool.or_eq_true, Option.isSome_iff_ne_none, ne_eq, not_or,
+            Bool.not_eq_true, Decidable.not_not] at h1
+          simp only [Option.some.injEq] at ha; subst ha
+          have ih' := ih _ h hd' (by
+            intro x y
+            have := hinv x (by simpa [eff, h1.2] using y)
+            simpa [eff, h1.2] using this)
+          simpa [eff, h1.2] using ih'
 
-/-- **Push subscribers receive the sequence log in order without gaps**, for every fault history of the
-task loop: the acknowledged ranges of any run from a fresh node are chained. -/
-theorem delivered_contiguous (c : Cfg) (hc : 1 ≤ c.maxSeq) (ins : List In) :
-    ChainFrom (-1) (acks (run c {} ins).2) := by
-  obtain ⟨s', h⟩ := run_refines_spec c hc ins
-  simpa [eff] using accepted_contiguous c _ {} s' h
+/-- the witness history: subscriber registered with resume point 5; 6..9 posted and acknowledged; the
+node crashes before `setLastPushSeq`; after the restart 6..9 is posted again.  (Replayed on the real code
+in the harness, scenarios `w-crash` and `w-store-fail`: same event log.) -/
+def lostRecordWitness : List In :=
+  [.subscribe 5, .seqUpdate 9 100 false true .crash, .seqUpdate 9 100 false true .record]
+
+example : (run {} {} lostRecordWitness).2 =
+    [.persisted 5, .started, .post 6 9 true, .started, .post 6 9 true, .persisted 9] := by decide
+
+/-- **The full statement is false**: an acknowledgement whose record is lost (crash or ignored store
+error between `PostData` and `setLastPushSeq`) is delivered again after the restart — at-least-once
+delivery across that window. -/
+theorem delivered_full_false : ¬ FullStatement := by
+  intro h
+  have h1 := h {} (by decide) lostRecordWitness
+  have e : acks (run {} {} lostRecordWitness).2 = [(6, 9), (6, 9)] := by decide
+  rw [e] at h1
+  simp [ChainFrom] at h1
+
+/-- **Push subscribers receive the sequence log in order, no sequence twice**, for every fault history
+of the task loop without a lost record (hypothesis added to `FullStatement`: `noLoss` — every
+acknowledged post gets its record): the acknowledged ranges of any run from a fresh node are strictly
+increasing, ranges without matching data may lie between them. -/
+theorem delivered_contiguous_partial (c : Cfg) (hc : 1 ≤ c.maxSeq) (ins : List In)
+    (hn : ∀ i ∈ ins, i.noLoss = true) : ChainFrom false (-1) (acks (run c {} ins).2) := by
+  obtain ⟨s', h⟩ := run_refines_strict c hc ins hn
+  have := accepted_contiguous_partial c false _ {} s' h (by simp) (by intro x; simp at x)
+  simpa [eff] using this
+
+/-- … **and without gaps** when no range is empty (block, header and tx-result subscriptions): each
+acknowledged range starts right after the previous one. -/
+theorem delivered_dense_partial (c : Cfg) (hc : 1 ≤ c.maxSeq) (ins : List In)
+    (hn : ∀ i ∈ ins, i.noLoss = true) (hd : ∀ i ∈ ins, i.dense = true) :
+    ChainFrom true (-1) (acks (run c {} ins).2) := by
+  obtain ⟨s', h⟩ := run_refines_strict c hc ins hn
+  have := accepted_contiguous_partial c true _ {} s' h (fun _ => run_noSkip c ins {} hd) (by intro x; simp at x)
+  simpa [eff] using this
 
 /-- … and **from its resume point**: a subscriber registered with resume sequence `r ≥ 1` gets `r+1`
-first, whatever happens afterwards. -/
-theorem delivered_from_resume (c : Cfg) (hc : 1 ≤ c.maxSeq) (r : Int) (hr : r ≥ 1) (ins : List In) :
-    ChainFrom r (acks (run c {} (.subscribe r :: ins)).2) := by
+first (dense) / nothing at or before `r` (filter), whatever happens afterwards (no lost record). -/
+theorem delivered_from_resume_partial (c : Cfg) (hc : 1 ≤ c.maxSeq) (dense : Bool) (r : Int) (hr : r ≥ 1) (ins : List In)
+    (hn : ∀ i ∈ ins, i.noLoss = true) (hd : dense = true → ∀ i ∈ ins, i.dense = true) :
+    ChainFrom dense r (acks (run c {} (.subscribe r :: ins)).2) := by
   have hstep : step c {} (.subscribe r) =
       (spawn { ({} : Task) with persisted := r, active := true, registered := true }, [.persisted r, .started]) := by
     simp [step, hr]
-  obtain ⟨s1, h1, r1⟩ := sim_step c hc {} {} (.subscribe r) R_init
-  obtain ⟨s2, h2, _⟩ := run_refines_spec_from c hc ins _ s1 r1
-  have hc2 := accepted_contiguous c _ s1 s2 h2
-  have hp : eff s1 = r := by
-    have := r1.p; have hpd := r1.pend
-    rw [hstep] at this
-    simp [eff, hpd, this, spawn]
-  simp only [run, hstep]
-  rw [hstep] at hc2
-  simpa [acks, hp] using hc2
+  have hall : ∀ i ∈ (In.subscribe r :: ins), i.noLoss = true := by
+    intro i hi
+    rcases List.mem_cons.mp hi with h1 | h1
+    · subst h1; rfl
+    · exact hn i h1
+  obtain ⟨s', h⟩ := run_refines_strict c hc (.subscribe r :: ins) hall
+  have hev : (run c {} (.subscribe r :: ins)).2 = [.persisted r, .started] ++ (run c (step c {} (.subscribe r)).1 ins).2 := by
+    simp only [run, hstep]
+  rw [hev] at h ⊢
+  rw [acceptAll_append] at h
+  have h0 : acceptAll c true {} [.persisted r, .started] = some { ({} : Spec) with p := r, dead := false, q := r } := by
+    simp [acceptAll, accept, hr]
+  rw [h0] at h
+  simp only [Option.bind_some] at h
+  have := accepted_contiguous_partial c dense _ _ s' h
+    (fun hh => run_noSkip c ins _ (hd hh)) (by intro _ _; simp [eff])
+  simpa [acks, eff] using this
 
 /-- **A sequence is recorded as delivered only after the subscriber acknowledged it**: the
-specification accepts a record event only right after the acknowledged post ending at that sequence
-(or as the registration's resume point, before any post). -/
-theorem persisted_only_after_ack (c : Cfg) (s s' : Spec) (v : Int) (h : accept c s (.persisted v) = some s') :
+specification (strict or not) accepts a record event only right after the acknowledged post ending at
+that sequence (or as the registration's resume point, before any post). -/
+theorem persisted_only_after_ack (c : Cfg) (k : Bool) (s s' : Spec) (v : Int) (h : accept c k s (.persisted v) = some s') :
     s.pending = some v ∨ (s.pending = none ∧ s.anyPost = false ∧ s.dead = true) := by
   simp only [accept] at h
+  split at h
+  · simp at h
   split at h
   · rename_i b hb
     split at h
@@ -177,13 +442,74 @@ theorem persisted_only_after_ack (c : Cfg) (s s' : Spec) (v : Int) (h : accept c
       exact Or.inr ⟨hb, hc.1.1.2, hc.1.1.1⟩
     · simp at h
 
-/-- the loop only ever emits a record event right after the acknowledged post it belongs to, or at
+/-- … and `pending = some v` arises only from an acknowledged post ending at `v`: every other event
+clears it. -/
+theorem pending_only_from_ack (c : Cfg) (k : Bool) (s s' : Spec) (e : Ev) (v : Int)
+    (h : accept c k s e = some s') (hp : s'.pending = some v) : ∃ a, e = .post a v true := by
+  cases e with
+  | post a b ok =>
+    simp only [accept] at h
+    split at h
+    · simp at h
+    · split at h
+      · simp at h
+      · split at h
+        · simp at h
+        · cases ok with
+          | true =>
+            simp only [if_true, Option.some.injEq] at h
+            subst h
+            simp only [Option.some.injEq] at hp
+            exact ⟨a, by rw [hp]⟩
+          | false =>
+            simp only [Bool.false_eq_true, if_false] at h
+            split at h <;> (simp only [Option.some.injEq] at h; subst h; simp at hp)
+  | skip a b =>
+    simp only [accept] at h
+    split at h
+    · simp at h
+    · split at h
+      · simp at h
+      · split at h
+        · simp at h
+        · simp only [Option.some.injEq] at h; subst h; simp at hp
+  | persisted w =>
+    simp only [accept] at h
+    split at h
+    · simp at h
+    split at h
+    · split at h
+      · simp only [Option.some.injEq] at h; subst h; simp at hp
+      · simp at h
+    · rename_i hb
+      split at h
+      · simp only [Option.some.injEq] at h; subst h; simp [hb] at hp
+      · simp at h
+  | deactivated =>
+    simp only [accept] at h
+    split at h
+    · rename_i hm
+      simp only [Bool.and_eq_true, Option.isNone_iff_eq_none] at hm
+      simp only [Option.some.injEq] at h; subst h; simp [hm.2] at hp
+    · simp at h
+  | started =>
+    simp only [accept] at h
+    split at h
+    · simp at h
+    · simp only [Option.some.injEq] at h; subst h; simp at hp
+  | stalled =>
+    simp only [accept] at h
+    split at h
+    · simp at h
+    · simp only [Option.some.injEq] at h; subst h; simp at hp
+
+/-- the loop only ever writes a record right after the acknowledged post it belongs to, or at
 registration. -/
 theorem step_persisted_shape (c : Cfg) (t : Task) (i : In) (v : Int) (h : Ev.persisted v ∈ (step c t i).2) :
     (∃ a, (step c t i).2 = [.post a v true, .persisted v]) ∨ (∃ r, i = .subscribe r ∧ v = r) := by
   cases i with
   | tick => simp only [step] at h; split at h <;> simp at h
-  | restart => simp only [step] at h; split at h <;> simp at h
+  | restart => simp only [step, reboot] at h; split at h <;> simp at h
   | subscribe r =>
     right; refine ⟨r, rfl, ?_⟩
     simp only [step] at h
@@ -191,7 +517,7 @@ theorem step_persisted_shape (c : Cfg) (t : Task) (i : In) (v : Int) (h : Ev.per
     · split at h <;> simp at h
     · split at h <;> simp at h
       exact h
-  | seqUpdate latest cut ok =>
+  | seqUpdate latest cut empty ok after =>
     left
     simp only [step] at h ⊢
     split at h
@@ -203,28 +529,167 @@ theorem step_persisted_shape (c : Cfg) (t : Task) (i : In) (v : Int) (h : Ev.per
         · split at h
           · simp at h
           · split at h
-            · rename_i h1 h2 h3 h4 h5
-              simp only [List.mem_cons, reduceCtorEq, Ev.persisted.injEq, List.mem_nil_iff, or_false, false_or] at h
-              simp only [h1, h2, h3, h4, h5, if_false, if_true, Bool.false_eq_true]
-              exact ⟨_, by rw [h]⟩
             · split at h <;> simp at h
+            · split at h
+              · rename_i h1 h2 h3 h4 h5 h6
+                cases after with
+                | record =>
+                  simp only [List.mem_cons, reduceCtorEq, Ev.persisted.injEq, List.mem_nil_iff, or_false, false_or] at h
+                  simp only [h1, h2, h3, h4, h5, h6, if_false, if_true, Bool.false_eq_true]
+                  exact ⟨_, by rw [h]⟩
+                | storeFail => simp at h
+                | crash =>
+                  simp only [reboot] at h
+                  split at h <;> simp at h
+              · split at h <;> simp at h
 
-/-- **Three consecutive failures deactivate the subscriber** (and nothing is posted until it registers
-again). -/
-theorem three_failures_deactivate (c : Cfg) (t : Task) (latest : Int) (cut : Nat)
-    (hr : t.running = true) (hs : t.sleep ≤ 1) (hl : 0 < t.last) (hlt : t.last < latest) (hf : t.fails = 2) :
-    (step c t (.seqUpdate latest cut false)).1.running = false ∧
-    Ev.deactivated ∈ (step c t (.seqUpdate latest cut false)).2 ∧
-    ∀ latest' cut' ok, (step c (step c t (.seqUpdate latest cut false)).1 (.seqUpdate latest' cut' ok)).2 = [] := by
-  have h1 : ¬ t.sleep > 1 := by omega
-  have h2 : ¬ t.last ≥ latest := by omega
-  have h3 : ¬ t.last ≤ 0 := by omega
-  simp [step, hr, h1, h2, h3, hf]
+/-! ### three consecutive failures deactivate — over whole traces -/
 
-/-- non-vacuity: a history with failures, a deactivation, a re-registration and a restart. -/
-example : (run {} {} [.subscribe 5, .seqUpdate 9 100 true, .seqUpdate 30 100 false, .tick,
-      .subscribe 0, .seqUpdate 30 3 true, .restart, .seqUpdate 31 100 true]).2 =
+/-- `Strikes must n evs`: `n` consecutive refused posts so far; `must`: the third one was just seen and
+`.deactivated` must be the next event.  A refused post raises the count, an acknowledged post, a skipped
+range and a task start reset it; after the third refused post in a row NOTHING but `.deactivated` may
+follow (in particular no further post). -/
+def Strikes : Bool → Nat → List Ev → Prop
+  | _, _, [] => True
+  | true, _, e :: es => e = .deactivated ∧ Strikes false 0 es
+  | false, n, .post _ _ false :: es => Strikes (decide (n + 1 ≥ 3)) (n + 1) es
+  | false, n, .persisted _ :: es => Strikes false n es
+  | false, _, _ :: es => Strikes false 0 es
+
+/-- **Three consecutive failed posts are followed by `.deactivated` before any further post** — in
+every accepted trace. -/
+theorem accepted_three_strikes (c : Cfg) (k : Bool) (evs : List Ev) (s s' : Spec) (h : acceptAll c k s evs = some s') :
+    Strikes s.mustDeact s.fails evs := by
+  induction evs generalizing s with
+  | nil => cases hm : s.mustDeact <;> simp [Strikes]
+  | cons e es ih =>
+    simp only [acceptAll] at h
+    cases ha : accept c k s e with
+    | none => simp [ha] at h
+    | some s1 =>
+      simp only [ha] at h
+      have ih' := ih s1 h
+      cases hm : s.mustDeact with
+      | true =>
+        -- only `.deactivated` is accepted
+        cases e with
+        | deactivated =>
+          simp only [accept, hm] at ha
+          split at ha
+          · simp only [Option.some.injEq] at ha; subst ha
+            exact ⟨rfl, by simpa using ih'⟩
+          · simp at ha
+        | post a b ok => simp [accept, hm] at ha
+        | skip a b => simp [accept, hm] at ha
+        | stalled => simp [accept, hm] at ha
+        | started => simp [accept, hm] at ha
+        | persisted v => simp [accept, hm] at ha
+      | false =>
+        cases e with
+        | post a b ok =>
+          simp only [accept] at ha
+          split at ha
+          · simp at ha
+          · split at ha
+            · simp at ha
+            · split at ha
+              · simp at ha
+              · cases ok with
+                | true =>
+                  simp only [if_true, Option.some.injEq] at ha
+                  subst ha
+                  simpa [Strikes, hm] using ih'
+                | false =>
+                  simp only [Bool.false_eq_true, if_false] at ha
+                  simp only [Strikes]
+                  split at ha
+                  · rename_i h3
+                    simp only [Option.some.injEq] at ha; subst ha
+                    simpa [h3] using ih'
+                  · rename_i h3
+                    simp only [Option.some.injEq] at ha; subst ha
+                    simpa [h3, hm] using ih'
+        | skip a b =>
+          simp only [accept] at ha
+          split at ha
+          · simp at ha
+          · split at ha
+            · simp at ha
+            · split at ha
+              · simp at ha
+              · simp only [Option.some.injEq] at ha; subst ha
+                simpa [Strikes, hm] using ih'
+        | stalled =>
+          simp only [accept] at ha
+          split at ha
+          · simp at ha
+          · simp only [Option.some.injEq] at ha; subst ha
+            simpa [Strikes, hm] using ih'
+        | started =>
+          simp only [accept] at ha
+          split at ha
+          · simp at ha
+          · simp only [Option.some.injEq] at ha; subst ha
+            simpa [Strikes, hm] using ih'
+        | deactivated => simp [accept, hm] at ha
+        | persisted v =>
+          simp only [accept] at ha
+          simp only [Strikes]
+          split at ha
+          · simp at ha
+          split at ha
+          · split at ha
+            · simp only [Option.some.injEq] at ha; subst ha; simpa [hm] using ih'
+            · simp at ha
+          · split at ha
+            · simp only [Option.some.injEq] at ha; subst ha; simpa [hm] using ih'
+            · simp at ha
+
+/-- … **in any run of the task loop** (any fault history): three consecutive failed posts are followed
+by `.deactivated` before any further post. -/
+theorem run_three_strikes (c : Cfg) (hc : 1 ≤ c.maxSeq) (ins : List In) : Strikes false 0 (run c {} ins).2 := by
+  obtain ⟨s', h⟩ := run_refines_spec c hc ins
+  exact accepted_three_strikes c false _ {} s' h
+
+/-- `Strikes` has teeth: a fourth post after three refused ones is not allowed, nor a late deactivation. -/
+example : ¬ Strikes false 0 [.post 6 9 false, .post 6 9 false, .post 6 9 false, .post 6 9 false] := by
+  simp [Strikes]
+example : ¬ Strikes false 0 [.post 6 9 false, .post 6 9 false, .post 6 9 false, .started, .deactivated] := by
+  simp [Strikes]
+/-- `Delivered` has teeth: a retransmission must start where the refused post started; a post after a
+task start must begin at the record. -/
+example : ¬ Delivered 5 5 [.post 6 9 false, .post 7 9 true] := by simp [Delivered]
+example : ¬ Delivered 5 5 [.post 6 9 true, .started, .post 10 12 true] := by simp [Delivered]
+example : Delivered 5 5 [.post 6 9 true, .started, .post 6 12 true] := by simp [Delivered]
+
+/-- non-vacuity (dense): a history with failures, a re-registration, a size cut and a restart; three
+refusals in a row, the deactivation and the re-registration. -/
+example : (run {} {} [.subscribe 5, .seqUpdate 9 100 false true .record, .seqUpdate 30 100 false false .record, .tick,
+      .subscribe 0, .seqUpdate 30 3 false true .record, .restart, .seqUpdate 31 100 false true .record]).2 =
     [.persisted 5, .started, .post 6 9 true, .persisted 9, .post 10 19 false, .post 10 12 true, .persisted 12,
      .started, .post 13 22 true, .persisted 22] := by decide
+example : (run { failSleep := 1 } {} [.subscribe 5, .seqUpdate 9 100 false false .record, .seqUpdate 9 100 false false .record,
+      .seqUpdate 9 100 false false .record, .seqUpdate 9 100 false true .record, .subscribe 5,
+      .seqUpdate 9 100 false true .record]).2 =
+    [.persisted 5, .started, .post 6 9 false, .post 6 9 false, .post 6 9 false, .deactivated, .started,
+     .post 6 9 true, .persisted 9] := by decide
+/-- non-vacuity (filter; the history replayed on the real code as `w-empty-restart-data`): ranges without
+matching data, a restart (the cursor falls back to the record 5), then a block with data, delivered once. -/
+example : (run { maxSeq := 100 } {} [.subscribe 5, .seqUpdate 17 100 true true .record, .restart,
+      .seqUpdate 20 100 false true .record, .seqUpdate 23 100 true true .record]).2 =
+    [.persisted 5, .started, .skip 6 17, .started, .post 6 20 true, .persisted 20, .skip 21 23] := by decide
+/-- non-vacuity (store error ignored, then a restart; replayed as `w-store-fail`). -/
+example : (run {} {} [.subscribe 5, .seqUpdate 9 100 false true .storeFail, .restart,
+      .seqUpdate 9 100 false true .record]).2 =
+    [.persisted 5, .started, .post 6 9 true, .started, .post 6 9 true, .persisted 9] := by decide
+/-- the oversize first block: no progress (replayed as `w-oversize`). -/
+example : (run { maxSeq := 100 } {} [.subscribe 5, .seqUpdate 7 0 true true .record, .seqUpdate 7 0 true true .record]).2 =
+    [.persisted 5, .started, .stalled, .stalled] := by decide
+/-- the hypotheses of the partial theorems are satisfiable on these histories. -/
+example : ∀ i ∈ [In.subscribe 5, .seqUpdate 17 100 true true .record, .restart, .seqUpdate 20 100 false true .record],
+    i.noLoss = true := by decide
+example : ∀ i ∈ [In.subscribe 5, .seqUpdate 9 100 false true .record, .restart], i.dense = true := by decide
+example : CursorOk true { p := 9, q := 9, dead := false } := by intro _ _; simp [eff]
+example : CursorOk false { p := 9, q := 17, dead := false } := by intro _ _; simp [eff]
 
 end C32
